@@ -181,6 +181,9 @@ func checkC20(c *Check) {
 			if ph, isPhi := arg.(*ssa.Phi); isPhi {
 				ruleLevelSwitch(c, p, handler, ph, fvOf)
 				seenOpt["l"] = f.Name()
+			} else if call, isCall := arg.(*ssa.Call); isCall && inModuleOrMain(staticCallee(call), handler) && flagArgIndex(call, flagOfValue, "l") >= 0 {
+				ruleLevelHelper(c, p, call, staticCallee(call), flagArgIndex(call, flagOfValue, "l"))
+				seenOpt["l"] = f.Name()
 			} else if k, isK := arg.(*ssa.Const); isK {
 				c.Fail("R20.2", "lz4c.compress#level-map", p.InstrPos(ci), "the -l flag selects the compression level", "CompressionLevelOption receives the constant "+k.String()+": the level flag has no effect")
 			} else {
@@ -257,13 +260,25 @@ func ruleLevelSwitch(c *Check, p *Program, h *ssa.Function, ph *ssa.Phi, fvOf ma
 		return
 	}
 	sets := valueSetsAt(h, w, w.(ssa.Instruction).Block(), 64)
+	var outs []levelOutcome
+	for i, e := range ph.Edges {
+		outs = append(outs, levelOutcome{sets[ph.Block().Preds[i]], e})
+	}
+	levelMapCheck(c, p.InstrPos(ph), outs)
+}
+
+type levelOutcome struct {
+	when vset      // values of -l
+	val  ssa.Value // level passed to the option
+}
+
+func levelMapCheck(c *Check, pos string, outs []levelOutcome) {
 	ok := true
 	var why []string
 	covered := vset{}
-	for i, e := range ph.Edges {
-		pred := ph.Block().Preds[i]
-		s := sets[pred]
-		k, isK := constUint(e)
+	for _, o := range outs {
+		s := o.when
+		k, isK := constUint(o.val)
 		if !isK {
 			ok = false
 			why = append(why, "non-constant level on an edge")
@@ -291,7 +306,31 @@ func ruleLevelSwitch(c *Check, p *Program, h *ssa.Function, ph *ssa.Phi, fvOf ma
 		ok = false
 		why = append(why, "some values of -l reach no assignment")
 	}
-	c.Cond(ok, "R20.2", "lz4c.compress#level-map", p.InstrPos(ph), "-l k selects lz4.Level_k (1<<(8+k)) for k in 1..9 and lz4.Fast otherwise", "value sets of the switch arms match the level constants", strings.Join(why, "; "))
+	c.Cond(ok, "R20.2", "lz4c.compress#level-map", pos, "-l k selects lz4.Level_k (1<<(8+k)) for k in 1..9 and lz4.Fast otherwise", "value sets of the switch arms match the level constants", strings.Join(why, "; "))
+}
+
+// ruleLevelHelper: the level is computed by a local helper called with the -l
+// flag: the helper's returns, with the value set of its parameter at each
+// return, are the outcomes of the mapping.
+func ruleLevelHelper(c *Check, p *Program, call *ssa.Call, f *ssa.Function, argIdx int) {
+	prm := f.Params[argIdx]
+	sets := valueSetsAt(f, prm, f.Blocks[0], 64)
+	var outs []levelOutcome
+	allInstrs(f, func(in ssa.Instruction) {
+		r, ok := in.(*ssa.Return)
+		if !ok || len(r.Results) != 1 {
+			return
+		}
+		res := r.Results[0]
+		if ph, isPhi := res.(*ssa.Phi); isPhi && ph.Block() == r.Block() {
+			for i, e := range ph.Edges {
+				outs = append(outs, levelOutcome{sets[ph.Block().Preds[i]], e})
+			}
+			return
+		}
+		outs = append(outs, levelOutcome{sets[r.Block()], res})
+	})
+	levelMapCheck(c, p.InstrPos(call), outs)
 }
 
 func ruleConfiguredWriter(c *Check, p *Program, h *ssa.Function) {
@@ -436,4 +475,19 @@ func ruleClientTypestate(c *Check, p *Program, h *ssa.Function, typ, cmd string)
 		n++
 		c.Fail("R20.8", fmt.Sprintf("lz4c.%s#apply-in-new-state", cmd), p.InstrPos(at), "every Apply on the shared "+typ+" happens while it accepts options (after NewX or Reset, before any I/O)", "Apply can run while the "+typ+" is in "+name(st)+" (second and later files of one invocation): the library rejects it with 'cannot apply options on closed or in error object' and the remaining files are not processed")
 	}
+}
+
+// inModuleOrMain: f is defined in the same package as the handler (cmd/lz4c).
+func inModuleOrMain(f *ssa.Function, handler *ssa.Function) bool {
+	return f != nil && f.Pkg != nil && handler.Pkg != nil && f.Pkg == handler.Pkg && len(f.Blocks) > 0
+}
+
+// flagArgIndex: index of the argument of call that is (a conversion of) the named flag, or -1.
+func flagArgIndex(call *ssa.Call, flagOfValue func(ssa.Value) (flagVar, bool, bool), name string) int {
+	for i, a := range call.Call.Args {
+		if fv, _, ok := flagOfValue(a); ok && fv.name == name {
+			return i
+		}
+	}
+	return -1
 }
